@@ -179,6 +179,7 @@ class DenseOutput(object):
     """
 
     def __init__(self, t_eval, y_interpolants):
+        self.__n_oriented = {1: 0, -1: 0, 0: 0}
         if t_eval is None and y_interpolants is None:
             self.t_eval = None
             self.__t_eval_arr = None
@@ -194,6 +195,8 @@ class DenseOutput(object):
                 self.__t_eval_arr = D.ar_numpy.stack(self.t_eval)
                 self.__t_eval_arr_stale = False
                 self.y_interpolants = y_interpolants
+                for interp in y_interpolants:
+                    self.__n_oriented[self.__orientation(interp)] += 1
 
     @property
     def t_eval_arr(self):
@@ -202,13 +205,32 @@ class DenseOutput(object):
             self.__t_eval_arr_stale = False
         return self.__t_eval_arr
 
+    @staticmethod
+    def __orientation(interp):
+        t0, t1 = getattr(interp, "t0", None), getattr(interp, "t1", None)
+        if t0 is None or t1 is None or t0 == t1:
+            return 0
+        return 1 if t1 > t0 else -1
+
+    def __containing_interval(self, idx, t):
+        # the bisection assumes end times ordered along one direction of time; once the integration
+        # has turned round, a query is answered by the most recent piece that contains it
+        if self.__n_oriented[1] > 0 and self.__n_oriented[-1] > 0:
+            for jdx in range(len(self.y_interpolants) - 1, -1, -1):
+                t0, t1 = getattr(self.y_interpolants[jdx], "t0", None), getattr(self.y_interpolants[jdx], "t1", None)
+                if t0 is not None and t1 is not None and ((t0 <= t <= t1) or (t1 <= t <= t0)):
+                    return jdx
+        return idx
+
     def find_interval(self, t):
         if self.t_eval is None:
             raise ValueError("No interpolant has been added and time interval is not defined!")
         if len(self.t_eval) > 1 and self.t_eval[-1] < self.t_eval[0]:
             # pieces of a backward run: end times decrease in insertion order
-            return min(deutil.search_bisection(-self.t_eval_arr, -t), len(self.y_interpolants) - 1)
-        return min(deutil.search_bisection(self.t_eval, t), len(self.y_interpolants) - 1)
+            idx = min(deutil.search_bisection(-self.t_eval_arr, -t), len(self.y_interpolants) - 1)
+        else:
+            idx = min(deutil.search_bisection(self.t_eval, t), len(self.y_interpolants) - 1)
+        return self.__containing_interval(idx, t)
 
     def find_interval_vec(self, t):
         if self.t_eval is None:
@@ -219,6 +241,11 @@ class DenseOutput(object):
         else:
             out = deutil.search_bisection_vec(self.t_eval_arr, t)
         out[out > len(self.y_interpolants) - 1] = len(self.y_interpolants) - 1
+        if self.__n_oriented[1] > 0 and self.__n_oriented[-1] > 0:
+            flat_t, flat_out = D.ar_numpy.reshape(D.ar_numpy.asarray(t), (-1,)), D.ar_numpy.reshape(out, (-1,))
+            for k in range(len(flat_out)):
+                flat_out[k] = self.__containing_interval(int(flat_out[k]), flat_t[k])
+            out = D.ar_numpy.reshape(flat_out, D.ar_numpy.shape(out))
         return out
 
     def __call__(self, t):
@@ -275,9 +302,11 @@ class DenseOutput(object):
             if D.autoray.infer_backend(t) == 'torch':
                 self.t_eval = [i.to(D.ar_numpy.asarray(t)) for i in self.t_eval]
             self.__t_eval_arr_stale = True
+            self.__n_oriented[self.__orientation(y_interp)] += 1
 
     def remove_interpolant(self, idx):
         out = self.t_eval.pop(idx), self.y_interpolants.pop(idx)
+        self.__n_oriented[self.__orientation(out[1])] -= 1
         if len(self.t_eval) > 0:
             self.__t_eval_arr = D.ar_numpy.stack(self.t_eval)
         self.__t_eval_arr_stale = False
